@@ -20,7 +20,7 @@ import (
 	"verif/scen/lib"
 )
 
-var faults = []string{"server-finish", "server-fail", "abrupt-close", "reset", "half-close", "garbage", "non-envelope", "oversized"}
+var faults = []string{"server-finish", "server-fail", "abrupt-close", "reset", "half-close", "garbage", "non-envelope", "oversized", "client-handler-error"}
 
 type sendRec struct {
 	id       string
@@ -30,24 +30,26 @@ type sendRec struct {
 }
 
 type st struct {
-	fault           string
-	dials           int
-	estIDs          []string
-	handled         []string
-	sends           []*sendRec
-	tapped          map[string]int // message id -> connection index on whose wire it appeared
-	closeErr        error
-	closeRet        bool
-	snap            bool
-	concurrent      bool
-	secondDown      bool
-	outage          bool
-	noTap           bool
-	outageUntil     time.Duration
-	refused         int // dials refused during the outage
-	refusing        bool
-	refuseUntil     time.Duration
-	refusedSessions int // sessions the server refused (unknown role) during the refusal window
+	fault                  string
+	dials                  int
+	estIDs                 []string
+	handled                []string
+	sends                  []*sendRec
+	tapped                 map[string]int // message id -> connection index on whose wire it appeared
+	closeErr               error
+	closeRet               bool
+	snap                   bool
+	concurrent             bool
+	secondDown             bool
+	outage                 bool
+	noTap                  bool
+	outageUntil            time.Duration
+	refused                int    // dials refused during the outage
+	noIDSent, noIDReceived string // a message without id sent through the Client: as sent / as the server's handler saw it
+	noIDCaller             string // the caller's envelope after the send
+	refusing               bool
+	refuseUntil            time.Duration
+	refusedSessions        int // sessions the server refused (unknown role) during the refusal window
 }
 
 func body(faultSet []string, useTLS, useWS bool) func(x *harness.X) {
@@ -100,6 +102,9 @@ func body(faultSet []string, useTLS, useWS bool) func(x *harness.X) {
 		smux := &lime.EnvelopeMux{}
 		smux.MessageHandlerFunc(nil, func(ctx context.Context, m *lime.Message, snd lime.Sender) error {
 			x.Obs("server got %s", m.ID)
+			if lib.Str2(m.Metadata, "probe") == "noid" {
+				s.noIDReceived = lib.Canon(m)
+			}
 			return nil
 		})
 		srv := lime.NewServer(cfg, smux, lime.NewBoundListener(pl, lib.PipeAddr("p")))
@@ -109,6 +114,10 @@ func body(faultSet []string, useTLS, useWS bool) func(x *harness.X) {
 		cmux.MessageHandlerFunc(nil, func(ctx context.Context, m *lime.Message, snd lime.Sender) error {
 			s.handled = append(s.handled, m.ID)
 			x.Obs("client handler got %s", m.ID)
+			if m.ID == "boom" {
+				// an application handler that fails (its error happens to wrap a context error)
+				return fmt.Errorf("handler gave up: %w", context.Canceled)
+			}
 			return nil
 		})
 		ccfg := lime.NewClientConfig()
@@ -185,6 +194,8 @@ func body(faultSet []string, useTLS, useWS bool) func(x *harness.X) {
 				_ = sconn.Reset()
 			case "half-close":
 				_ = sconn.CloseWrite()
+			case "client-handler-error":
+				_ = sc.SendMessage(fctx, lib.Msg("boom", "the client's handler fails on this one"))
 			case "garbage":
 				if useWS {
 					// a text frame that is no JSON at all
@@ -244,6 +255,19 @@ func body(faultSet []string, useTLS, useWS bool) func(x *harness.X) {
 		rt.Quiesce()
 		appSend("m3")
 		rt.Quiesce()
+		{
+			// a message without id ("fire and forget"): it must arrive as it was given
+			nm := lib.Msg("", "no id")
+			nm.SetMetadataKeyValue("probe", "noid")
+			s.noIDSent = lib.Canon(nm)
+			nctx, nc := context.WithTimeout(context.Background(), 5*time.Second)
+			if client.SendMessage(nctx, nm) != nil {
+				s.noIDSent = ""
+			}
+			nc()
+			s.noIDCaller = lib.Canon(nm)
+			rt.Quiesce()
+		}
 		// the current server session sends one message down
 		if n := len(chans); n > 0 {
 			dctx, c3 := context.WithTimeout(context.Background(), 5*time.Second)
@@ -315,8 +339,12 @@ func final(x *harness.X, res *rt.Result) {
 		x.Failf("retry-storm:"+s.fault, "the client dialled %d times during the 2 s outage: it retries without pausing %s", s.refused, hist)
 	}
 	// a fresh session was established and is usable
-	if len(s.estIDs) < 2 {
+	// (a failing application handler costs no session: the first one simply goes on)
+	if len(s.estIDs) < 2 && s.fault != "client-handler-error" {
 		x.Failf("no-fresh-session:"+s.fault, "after the fault the client never established a fresh session (dials=%d, sessions=%d) %s", s.dials, len(s.estIDs), hist)
+	}
+	if s.noIDSent != "" && (s.noIDReceived != s.noIDSent || s.noIDCaller != s.noIDSent) {
+		x.Failf("message-altered-by-the-client", "a message without id was sent as %s; the server's handler saw %s and the caller's envelope is now %s %s", s.noIDSent, s.noIDReceived, s.noIDCaller, hist)
 	}
 	if !contains(s.handled, "down") {
 		x.Failf("deaf-after-fault:"+s.fault, "the message sent by the server after recovery never reached the client's handler %s", hist)
@@ -331,7 +359,7 @@ func final(x *harness.X, res *rt.Result) {
 	}
 	last := s.sends[len(s.sends)-1]
 	if last.returned && last.err == nil {
-		if conn, ok := s.tapped[last.id]; ok && conn == 0 && s.fault != "half-close" {
+		if conn, ok := s.tapped[last.id]; ok && conn == 0 && s.fault != "half-close" && s.fault != "client-handler-error" {
 			x.Failf("send-into-dead-session:"+s.fault, "SendMessage(%s) after the fault reported success but was written to the first, dead connection %s", last.id, hist)
 		}
 	}
@@ -363,7 +391,7 @@ func main() {
 	harness.Main(harness.Check{
 		Property: "C19",
 		Level:    "model_checking",
-		Rule:     "fault kind {server finish, server fail, abrupt close, connection reset, half-close, undecodable bytes, non-envelope JSON, envelope above twice the read limit} x moment {idle, concurrent with an application send} x {server reachable at once, dials refused for 2s during which an application send with a 300ms deadline times out, new sessions refused (unknown role) for 2s} as data choices, the injection placed by the bounded scheduler (delay bounding); then one more application send and one server-to-client message on the newest session; real Client and Server over the real TCP transport on per-dial virtual pipes; distinct outcome = distinct observation log",
+		Rule:     "fault kind {a client handler returning an error, server finish, server fail, abrupt close, connection reset, half-close, undecodable bytes, non-envelope JSON, envelope above twice the read limit} x moment {idle, concurrent with an application send} x {server reachable at once, dials refused for 2s during which an application send with a 300ms deadline times out, new sessions refused (unknown role) for 2s} as data choices, the injection placed by the bounded scheduler (delay bounding); then one more application send and one server-to-client message on the newest session; real Client and Server over the real TCP transport on per-dial virtual pipes; distinct outcome = distinct observation log",
 		Assume:   []string{"state pruning off (Client.channel is read outside its mutex)", "in-process clients are not explored here; the ws/faults scenario runs the client over WebSocket connections (gorilla, real opening handshake per dial over a virtual pipe; faults there also include a binary frame, a close frame and bytes that are no frame), where client frames are masked and the written-to-a-live-session clause is not evaluated; the tls/faults scenario runs the same over real TLS (negotiated per dial), where the wire tap cannot see message ids, so the written-to-a-live-session clause is not evaluated there; it runs the default schedule only (crypto/tls holds native mutexes across its I/O, so preempting inside it could block the whole simulation natively) with writes to a vanished peer failing as a reset", "a spinning goroutine is recognised by more than 8000 visible operations being executed while the virtual clock stands still (a whole handshake takes about 1500)"},
 		Scenarios: []harness.Scenario{
 			mk("all-faults", faults, 1, 2),
